@@ -435,6 +435,11 @@ def capture_case(pattern, depth, position):
         inner_node = lam_body([], None, inner)
     elif pattern == "rest":
         inner_node = lam([], "more", begin(emit(V(v)), emit(prim("length", V("more"))), emit(V("more"))))
+    elif pattern == "rest-set-only":
+        # the rest parameter is assigned but never read; the caller keeps live temporaries around the call
+        f, y = fresh("frs"), fresh("yrs")
+        inner_node = thunk(let([(f, lam(["a"], "more", begin(set_("more", I(1)), V("a")))), (y, prim("+", V(v), I(10)))],
+                               begin(emit(prim("+", app(V(f), [I(1)]), V(y))), emit(prim("+", app(V(f), [I(2), I(3), I(4)]), V(y))))))
     else:
         inner_node = thunk(*inner_use)
     node = inner_node
@@ -456,7 +461,7 @@ def capture_case(pattern, depth, position):
                    begin(emit(app(V(clo), [])), emit(app(V(clo), []))))
 
 
-PATTERNS = ["captured", "mutated", "captured+mutated", "shadowed", "forward", "rest", "unused"]
+PATTERNS = ["captured", "mutated", "captured+mutated", "shadowed", "forward", "rest", "rest-set-only", "unused"]
 POSITIONS = ["param", "local", "closure"]
 
 
@@ -592,6 +597,8 @@ class Gen09(Gen03):
                 st.append(emit(guard(e, [(B(True), S("caught"))], prim("+", I(1), prim("car", NIL)))))
             elif k == 5:      # unused rest parameter
                 st.append(emit(app(lam(["a"], "unused", prim("+", V("a"), I(1))), [self.const_expr(1), I(2), I(3)])))
+            elif k == 6 and r.random() < 0.5:      # rest parameter assigned but never read
+                st.append(emit(prim("+", app(lam(["a"], "setrest", begin(set_("setrest", I(1)), V("a"))), [self.const_expr(1), I(2)]), I(1000))))
             else:
                 st.append(emit(guard(e, [(B(True), S("caught"))], let([("zz", I(0))], prim("quotient", self.const_expr(1), V("zz"))))))
         return begin(*st)
